@@ -77,7 +77,7 @@ def session_graph_rules(m: Model, r: Report, rid: str) -> None:
     for n in walk_no_nested(rz.node):
         if isinstance(n, ast.Assign) and isinstance(n.targets[0], ast.Subscript) and ast.unparse(n.targets[0].value) == T:
             idx_ = ast.unparse(n.targets[0].slice)
-            fresh = any(pol and m.mtext(rz, t).replace(" ", "") == "len(_L[_L])==0" and any(isinstance(x, ast.Subscript) and ast.unparse(x.value) == T and ast.unparse(x.slice) == idx_ for x in ast.walk(t)) for t, pol in _pc16(rz.node, n))
+            fresh = any(((pol and m.mtext(rz, t).replace(" ", "") == "len(_L[_L])==0") or (not pol and m.mtext(rz, t).replace(" ", "") == "_L[_L]") or (pol and m.mtext(rz, t).replace(" ", "") == "not_L[_L]")) and any(isinstance(x, ast.Subscript) and ast.unparse(x.value) == T and ast.unparse(x.slice) == idx_ for x in ast.walk(t)) for t, pol in _pc16(rz.node, n))
             in_loop = any(any(x is n for x in ast.walk(w)) for w in walk_no_nested(rz.node) if isinstance(w, ast.While))
             r.check((idx_ in consts and not in_loop) or fresh, rid, f"{rz.qualname}#no-overwrite:{idx_}",
                     f"`{ast.unparse(n)[:70]}` replaces the transitions of a session that may already have some: its earlier targets stay in the model but cannot be "
@@ -92,7 +92,8 @@ def session_graph_rules(m: Model, r: Report, rid: str) -> None:
     # inductive argument for "every offered session is reachable": a session gets transitions (= is offered) only if it is the default
     # session, a target drawn for a session that is already offered, or a mandatory session attached to an offered one
     whiles = [n for n in walk_no_nested(rz.node) if isinstance(n, ast.While)]
-    if len(whiles) != 1 or not isinstance(whiles[0].test, ast.Compare) or "len(" not in ast.unparse(whiles[0].test):
+    # (canonical view: `while len(level) > 0` is `while level`)
+    if len(whiles) != 1 or not (isinstance(whiles[0].test, ast.Name) or (isinstance(whiles[0].test, ast.Compare) and "len(" in ast.unparse(whiles[0].test))):
         raise AnalysisError(f"{rz.qualname}: level loop (while len(<level sessions>) ...) not found")
     wl = whiles[0]
     lvl_names = [x.id for x in ast.walk(wl.test) if isinstance(x, ast.Name) and x.id in set_vars]
@@ -137,8 +138,8 @@ def session_graph_rules(m: Model, r: Report, rid: str) -> None:
         def idx(sub):
             return next((i for i, t in enumerate(body) if sub in t), None)
         body = [m.mtext(rz, s) for s in ast.walk(ml[0]) if isinstance(s, (ast.Assign, ast.Expr))]
-        a, c, own = idx("_L = [_L for _L, _L in enumerate(_L) if len(_L) > 0]"), idx("_L.choice(_L)"), idx("_L[_L] = {_L}")
-        guard = any(isinstance(s, ast.If) and m.mtext(rz, s.test).replace(" ", "") == "len(_L[_L])==0" for s in ml[0].body)
+        a, c, own = idx("_L = [_L for _L, _L in enumerate(_L) if _L]"), idx("_L.choice(_L)"), idx("_L[_L] = {_L}")
+        guard = any(isinstance(s, ast.If) and m.mtext(rz, s.test).replace(" ", "") in ("len(_L[_L])==0", "not_L[_L]") for s in ml[0].body)
         okm = None not in (a, c, own) and a < c < own and guard
     r.check(okm, rid, f"{rz.qualname}#mandatory-session-parent",
             "a mandatory session that is not yet offered must be attached to a session chosen among those already offered *before* it receives its own "
